@@ -1057,8 +1057,97 @@ def unref_task(kind, what, nsp, minimize, extra):
     return res
 
 
+EQ_CASES = (('empty', 'x'), ('empty', 'empty'), ('64k', '64k+x'),
+            ('64k', '64k'), ('ab', 'abc'), ('abc', 'ab'), ('ab', 'ab'))
+
+
+def _eq_bytes(name):
+    return {'empty': b'', 'x': b'x', '64k': b'a' * 65536,
+            '64k+x': b'a' * 65536 + b'x', 'ab': b'ab', 'abc': b'abc'}[name]
+
+
+def equal_effect_task(kind, a, b):
+    """T1 leaves the blob with bytes A, T2 with bytes B; undoing T1 goes
+    through iff B is equal in effect to A (same bytes) - then the blob is
+    as before T1 - and is refused otherwise, changing nothing.  A and B
+    include the empty blob and whole multiples of the comparison's chunk
+    size, one a prefix of the other."""
+    import transaction
+    from base64 import encodebytes
+    from mc import schedx
+    env.install()
+    env.reset_globals()
+    res = schedx._new_res()
+    d = env.new_dir('eq')
+    Blob = env.mod('ZODB.blob').Blob
+    db = _open_blob_db(kind, d)
+    wit = dict(equal_effect=dict(kind=kind, a=a, b=b))
+    seen = set()
+
+    def bad(c, sg, det):
+        fs = 'C13.%s:equal-effect:%s:%s' % (c, kind, sg)
+        if fs not in seen:
+            seen.add(fs)
+            res['violations'].append(('C13.' + c, fs, wit, det, 1))
+    try:
+        tm = transaction.TransactionManager()
+        c = db.open(tm)
+        blob = Blob()
+        with blob.open('w') as f:
+            f.write(b'v0')
+        c.root()['N'] = blob
+        env.CLOCK.now += 1
+        tm.commit()
+        tids = []
+        for data in (_eq_bytes(a), _eq_bytes(b)):
+            with blob.open('w') as f:
+                f.write(data)
+            del f
+            env.CLOCK.now += 1
+            tm.commit()
+            tids.append(db.storage.lastTransaction())
+        c.close()
+        env.CLOCK.now += 1
+        tmu = transaction.TransactionManager()
+        r = call(lambda: (db.undo(encodebytes(tids[0]).rstrip(), tmu.get()),
+                          tmu.commit()))
+        res['cov']['transitions'] += 1
+        same = _eq_bytes(a) == _eq_bytes(b)
+        if isinstance(r, Exc):
+            tmu.abort()
+            if same or r.name != 'UndoError':
+                bad('undo', '%s-%s:refused:%s' % (a, b, r.name),
+                    dict(got=repr(r)[:200]))
+            want = _eq_bytes(b)
+        else:
+            if not same:
+                bad('undo', '%s-%s:accepted-over-later-change' % (a, b), {})
+            want = b'v0'
+        got = _read_fresh(db, 'N')
+        res['cov']['evaluations'] += 1
+        if got != want and (same or isinstance(r, Exc)):
+            bad('bytes', '%s-%s:after-undo' % (a, b),
+                dict(expected=repr(want)[:40], got=repr(got)[:40]))
+        res['cov']['states'] += 1
+        res['cov']['traces_validated_against_impl'] += 1
+        res['cov']['distinct_nontrivial'] += 1
+        res['outcomes']['equal-effect'] = 1
+    except Exception as e:      # noqa: B902
+        bad('error', type(e).__name__, dict(error=repr(e)[:200]))
+    finally:
+        try:
+            db.close()
+        except Exception:
+            pass
+        env.rm_dir(d)
+    return res
+
+
 def extra_tasks(tier):
     tasks = []
+    for kind in ('Fb', 'BF'):
+        for a, b in EQ_CASES:
+            tasks.append((MOD, 'equal_effect_task', (kind, a, b)))
     maxrew = 3 if tier == 'quick' else 4
     for kind in ('Fb', 'BF'):
         for nrew in range(2, maxrew + 1):
@@ -1151,6 +1240,11 @@ def replay(w):
     if 'undo_chain' in w['witness']:
         u = w['witness']['undo_chain']
         r = undo_chain_task(u['kind'], u['shape'], u['length'])
+        viol = [(v[0].split('.', 1)[1], v[1].split(':', 1)[1], v[3])
+                for v in r['violations']]
+    elif 'equal_effect' in w['witness']:
+        u = w['witness']['equal_effect']
+        r = equal_effect_task(u['kind'], u['a'], u['b'])
         viol = [(v[0].split('.', 1)[1], v[1].split(':', 1)[1], v[3])
                 for v in r['violations']]
     elif 'multi_undo' in w['witness'] or 'unref' in w['witness']:
